@@ -181,7 +181,7 @@ func reflectSrcParams(v ssa.Value, seen map[ssa.Value]bool, depth int, out map[*
 		switch sc.Name() {
 		case "ValueOf", "Indirect":
 			reflectSrcParams(x.Call.Args[0], seen, depth+1, out)
-		case "Index", "Elem", "Slice", "Slice3", "MapIndex", "Field", "FieldByName", "MapRange", "Key", "Value":
+		case "Index", "Elem", "Slice", "Slice3", "MapIndex", "Field", "FieldByName", "MapRange", "Key", "Value", "Interface":
 			if len(x.Call.Args) > 0 {
 				reflectSrcParams(x.Call.Args[0], seen, depth+1, out)
 			}
